@@ -888,6 +888,8 @@ class Walker:
         v = self.decide(v, s)
         if is_const(v):
             return [(s, bool(v[1]))]
+        if v[0] == "un" and v[1] == "not":
+            return [(s2, not t) for s2, t in self.split_value(v[2], s, test)]  # conditions are recorded on the positive atom
         for c in s.conds:
             if c.atom == v and not _loop_stale(c, s):
                 return [(s, c.truth)]
@@ -1347,10 +1349,35 @@ class Walker:
         return self._comp(n, st, "dict")
 
     # calls --------------------------------------------------------------
+    def _map_of_helper(self, n, st):
+        """map(self.helper, xs) with a helper that the anchor policy looks through (a method that is not a function of the pinned tree) is the
+        generator (self.helper(x) for x in xs): the helper's body is seen once per element, as if the loop were written out.  map over an
+        anchored method (map(self.check_bit, ...)) stays a call to map, which the rules read as such"""
+        if not (self.inline == "deep" and self.opaque is not None and isinstance(n.func, ast.Name) and n.func.id == "map" and "map" not in st.env
+                and len(n.args) == 2 and not n.keywords and isinstance(n.args[0], ast.Attribute) and isinstance(n.args[0].value, ast.Name)
+                and n.args[0].value.id == "self" and not isinstance(n.args[1], ast.Starred)):
+            return None
+        fr = st.frame
+        K = fr.K
+        lex = fr.func.cls.name if fr.func.cls is not None else None
+        f = K.find_method(mangle(lex, n.args[0].attr)) if K is not None else None
+        if f is None or f.prop or f.qualname in self.opaque or f.qualname in _SIMPLE_TODAY or f.qualname in self.no_inline or f.src_name in self.no_inline \
+                or _is_generator(f):
+            return None
+        var = ast.Name(id="_map_elem", ctx=ast.Load())
+        call = ast.Call(func=n.args[0], args=[var], keywords=[])
+        gen = ast.GeneratorExp(elt=call, generators=[ast.comprehension(target=ast.Name(id="_map_elem", ctx=ast.Store()), iter=n.args[1], ifs=[], is_async=0)])
+        for x in (var, call, gen, gen.generators[0].target):
+            ast.copy_location(x, n)
+        return gen
+
     def e_Call(self, n, st):
         # super()
         if isinstance(n.func, ast.Name) and n.func.id == "super" and not n.args and "super" not in st.env:
             return [(st, ("super",))]
+        g = self._map_of_helper(n, st)
+        if g is not None:
+            return self._comp(g, st, "gen")
         out = []
         argnodes = list(n.args)
         kwnodes = [k.value for k in n.keywords]
